@@ -495,6 +495,79 @@ class UF:
 
 
 HMAC_UF = UF('hmac')
+HASH_LEVEL = False      # True: HMAC is expanded per RFC 2104 over an uninterpreted HASH function (and hashlib is modelled)
+HASH_UF = UF('hash')
+
+
+class SymHasher:
+    """model of a hashlib object: real hash on concrete data, uninterpreted function otherwise"""
+    _sizes = {'sha1': (20, 64), 'sha256': (32, 64), 'sha512': (64, 128), 'md5': (16, 64), 'sha384': (48, 128)}
+
+    def __init__(self, name, data=b''):
+        self.name = name
+        self.digest_size, self.block_size = self._sizes[name]
+        self._chunks = []
+        if data is not None and len(data):
+            self.update(data)
+
+    def update(self, data):
+        self._chunks.append(SymBytes.lift(data) if not isinstance(data, SymBytes) else data)
+
+    def copy(self):
+        h = SymHasher(self.name)
+        h._chunks = list(self._chunks)
+        return h
+
+    def digest(self):
+        items = []
+        for c in self._chunks:
+            items.extend(c.items)
+        if all(isinstance(i, int) for i in items):
+            return hashlib.new(self.name, bytes(items)).digest()
+        return HASH_UF(self.digest_size, self.name, SymBytes(items))
+
+    def hexdigest(self):
+        d = self.digest()
+        return d.hex()
+
+
+def model_hash_ctor(name):
+    def ctor(data=b''):
+        return SymHasher(name, data)
+    ctor.__name__ = f'openssl_{name}'
+    ctor.hash_name = name
+    return ctor
+
+
+MODEL_HASHLIB = None
+
+
+def model_hashlib():
+    import types as _t
+    global MODEL_HASHLIB
+    if MODEL_HASHLIB is None:
+        MODEL_HASHLIB = _t.SimpleNamespace(**{n: model_hash_ctor(n) for n in SymHasher._sizes})
+        MODEL_HASHLIB.new = lambda name, data=b'': SymHasher(name, data)
+    return MODEL_HASHLIB
+
+
+def _hash_name(digestmod):
+    if hasattr(digestmod, 'hash_name'):
+        return digestmod.hash_name
+    return digestmod().name if callable(digestmod) else str(digestmod)
+
+
+def hmac_rfc2104(key, msg, name):
+    """HMAC(K, m) = H((K' ^ opad) || H((K' ^ ipad) || m)), K' = H(K) if len(K) > block size, zero-padded to the block size"""
+    size, block = SymHasher._sizes[name]
+    k = SymBytes.lift(key)
+    if len(k) > block:
+        k = SymBytes.lift(SymHasher(name, k).digest())
+    k = k.ljust(block, b'\0')
+    ipad = k.translate(bytes(x ^ 0x36 for x in range(256)))
+    opad = k.translate(bytes(x ^ 0x5C for x in range(256)))
+    inner = SymHasher(name, ipad + SymBytes.lift(msg)).digest()
+    return SymHasher(name, opad + SymBytes.lift(inner)).digest()
 
 
 class SymHMAC:
@@ -510,8 +583,13 @@ class SymHMAC:
         if isinstance(m, SymBytes) and m.is_concrete():
             m = bytes(m.items)
         if not isinstance(k, SymBytes) and not isinstance(m, SymBytes):
-            return _hmac.HMAC(bytes(k), bytes(m), digestmod=self.digestmod).digest()
-        name = self.digestmod().name if callable(self.digestmod) else str(self.digestmod)
+            dm = self.digestmod
+            if hasattr(dm, 'hash_name'):
+                dm = getattr(hashlib, dm.hash_name)
+            return _hmac.HMAC(bytes(k), bytes(m), digestmod=dm).digest()
+        name = _hash_name(self.digestmod)
+        if HASH_LEVEL:
+            return hmac_rfc2104(k, m, name)
         size = self.digestmod().digest_size
         return HMAC_UF(size, name, k, m)
 
@@ -575,6 +653,26 @@ def sym_compare_digest(a, b):
 
 
 # ----------------------------------------------------------------------------- installation
+def install_hash_level(mods):
+    """C04 only: hashlib of crypto.py / ikesa.py is the model, HMAC is RFC 2104 over the uninterpreted hash"""
+    global HASH_LEVEL
+    HASH_LEVEL = True
+    mh = model_hashlib()
+    c = mods['crypto']
+    c.hashlib = mh
+    for cls in (c.Prf, c.Integrity):
+        d = cls._digestmod_dict
+        new = {}
+        for k in dict.keys(d):
+            v = dict.__getitem__(d, k)
+            if isinstance(v, tuple):
+                new[k] = (getattr(mh, v[0]().name),) + v[1:]
+            else:
+                new[k] = getattr(mh, v().name)
+        cls._digestmod_dict = SymDict(new)
+    mods['ikesa'].hashlib = mh
+
+
 def install(mods):
     """mods: dict name -> imported /repo module"""
     enum.EnumType.__call__ = _enum_call
